@@ -123,6 +123,23 @@ def walk_tree(case):
                     continue
                 if tuple(sub.shape) != tuple(vals.shape) or not isinstance(sub.dtype, np.dtype) or sub.dtype.newbyteorder("=") != vals.dtype.newbyteorder("="):
                     res["bad"].append((f"selection-typed:{sorted(s)}", f"isel({s}): declared {sub.shape} {sub.dtype}, loaded {vals.shape} {vals.dtype}"))
+                # the asynchronous way to load (DataArray.load_async): a backend that does not offer it refuses (NotImplementedError) -- one
+                # that does must load what it declared, like the synchronous way
+                lazy = da.isel(s)
+                if hasattr(lazy, "load_async"):
+                    import asyncio
+
+                    try:
+                        got = asyncio.run(lazy.load_async())
+                        av = np.asarray(got.values)
+                        if tuple(lazy.shape) != tuple(av.shape) or lazy.dtype.newbyteorder("=") != av.dtype.newbyteorder("="):
+                            res["bad"].append((f"selection-typed-async:{sorted(s)}", f"isel({s}).load_async(): declared {lazy.shape} {lazy.dtype}, loaded {av.shape} {av.dtype}"))
+                        elif not np.array_equal(av, vals, equal_nan=(av.dtype.kind in "fc")):
+                            res["bad"].append((f"selection-async-values:{sorted(s)}", f"isel({s}).load_async() loads other values than .values"))
+                    except NotImplementedError:
+                        pass
+                    except BaseException as e:  # noqa: B902
+                        res["bad"].append((f"selection-async-fails:{sorted(s)}", f"isel({s}).load_async() raised {type(e).__name__}: {str(e)[:100]}"))
     finally:
         imgrun.drop_from_fs(url, case["fs"])
     return res
